@@ -261,7 +261,9 @@ def _num(t):
 
 
 def witness_classes(line, cfg):
-    """{activity: set of witness-class keys} — stable classification of the known defect classes (NOTES.md):
+    """{activity: set of witness-class keys} — stable classification of the defect classes found by C19/C21, all FIXED in
+    the library since (NOTES.md; the descriptions are those of the code before the fixes).  A disagreement in one of these
+    classes is now reported as a plain violation; the class only names the regression:
       noop-penalty   (cpu Lazy) Exec::update_priority() with the current priority, or a priority change while suspended
                      followed by resume(): update_variable_penalty() is a no-op but the heap entry is dropped
       bw-latency     a link with a bandwidth profile on the route of a comm that pays a latency: set_bandwidth() enables the
@@ -313,12 +315,7 @@ def is_lazy_cpu(cfg):
 
 
 def build_harness(ctx):
-    """the shared harness; with VERIF_FLUID_FIXED=1 a variant in which the member functions changed by
-    props/C19/proposed_fix.diff (Action / network part) are interposed by their patched versions (sanity runs only)"""
+    """the shared harness"""
     import os
     src = os.path.join(os.path.dirname(os.path.abspath(__file__)), "fluid_harness.cpp")
-    if os.environ.get("VERIF_FLUID_FIXED"):
-        ctx.notes.append("VERIF_FLUID_FIXED: harness interposes the patched Action/NetworkCm02Link functions")
-        return ctx.build_harness(src, name="fluid_harness_fixed", flags=("-DFLUID_FIXED", "-fno-access-control", "-rdynamic",
-                                                                         "-I" + os.path.dirname(src)))
     return ctx.build_harness(src, name="fluid_harness")
